@@ -236,8 +236,42 @@ func (cx *Ctx) checkGetSAML(r *Report) {
 				switch {
 				case a.Op == "TRUE" && (strings.HasPrefix(a.A, "next@") || strings.Contains(a.A, "#0")):
 				case a.Op == "LT" && strings.HasPrefix(a.B, "len("):
+				case a.Op == "LT" && strings.HasPrefix(a.A, "(phi@") && strings.HasPrefix(a.B, "const:"): // range over an array
 				default:
 					own = append(own, strings.Replace(a.String(), a.A, a.TA, 1))
+				}
+			}
+			if inLoop && len(own) == 1 && strings.HasPrefix(own[0], "!EMPTY(") {
+				// the standard attributes kept in a table and appended in a loop: an entry is skipped exactly when
+				// its value - one of the user's standard values - is empty
+				var tested ssa.Value
+				for _, a := range fx.AtomsAt(call) {
+					if a.Op == "EMPTY" && a.Neg {
+						if bo, isB := stripNot(a.Cond).(*ssa.BinOp); isB {
+							tested = bo.X
+							if _, isK := tested.(*ssa.Const); isK {
+								tested = bo.Y
+							}
+							tested = unLen(tested)
+						}
+					}
+				}
+				if lvf := cx.vflow("provider.(*Attributes).GetSAML"); tested != nil && lvf != nil {
+					fields := map[string]bool{}
+					okAll := true
+					for _, l := range lvf.Deep(lvf.Labels(tested)).leaves() {
+						const pre = "param:provider.(*Attributes).GetSAML/#0."
+						if strings.HasPrefix(l, pre) && !strings.ContainsAny(strings.TrimPrefix(l, pre), ".[") {
+							fields[strings.TrimPrefix(l, pre)] = true
+						} else if !strings.HasPrefix(l, "const:") {
+							okAll = false
+						}
+					}
+					if okAll && len(fields) > 0 {
+						nStd += len(fields)
+						r.Ok("R-GUARD", "GetSAML:std-append@"+w.InstrPos(call), w.InstrPos(call), fmt.Sprintf("table of %d standard values, each appended exactly when it is set", len(fields)))
+						continue
+					}
 				}
 			}
 			if inLoop {
